@@ -264,3 +264,172 @@ Fixpoint run_steps (s : rstate) (p : plan) : rres :=
 
 Definition run_plan (onto : content) (p : plan) : rres :=
   if valid_plan p then run_steps {| r_onto := onto; r_new := [] |} p else RInvalid.
+
+(* ================================================================ *)
+(* Round 2 extensions (add-only: everything above is unchanged)      *)
+
+(* ---------------- conflict resolution and --continue ---------------- *)
+(* While an operation is stopped with conflicts the working tables hold, for a
+   conflicting key, "our" row; dolt_conflicts_resolve --ours / --theirs replaces
+   every conflicting row by the whole row of that side
+     go/libraries/doltcore/sqle/dprocedures/dolt_conflicts_resolve.go
+   and --continue commits the working set
+     cherry_pick.ContinueCherryPick, revert.ContinueRevert,
+     dolt_rebase.go continueRebase / commitManuallyStagedChangesForStep. *)
+Inductive side := Ours | Theirs.
+Definition pick_side (h : side) (ko kt : option row) : option row :=
+  match h with Ours => ko | Theirs => kt end.
+
+Definition resolve_at (h : side) (b o t : content) (k : key) : option row :=
+  match merge3_at b o t k with
+  | MOk v => v
+  | MConflict => pick_side h (get k o) (get k t)
+  end.
+
+(* the merge with every conflicting key resolved to side h *)
+Definition resolved (h : side) (b o t : content) : content :=
+  flat_map (fun k => match resolve_at h b o t k with Some r => [(k, r)] | None => [] end) (keys3 b o t).
+
+(* what to do when the operation stops with conflicts *)
+Inductive onconf := Stop | Resolve (h : side) | Abort.
+
+Inductive pres2 :=
+| QOk (d : content)          (* no conflict: new commit *)
+| QNoChange                  (* (resolved) merge equals HEAD: nothing to commit *)
+| QConflict                  (* stopped with conflicts, given up *)
+| QResolved (d : content)    (* stopped, conflicts resolved, --continue made the commit *)
+| QAborted (d : content).    (* stopped, --abort: the content afterwards *)
+
+(* one three-way-merge procedure (ours = HEAD) with a conflict policy *)
+Definition merge_proc (m : onconf) (b o t : content) : pres2 :=
+  if clean b o t then
+    let d := merge3 b o t in if content_eqb d (norm o) then QNoChange else QOk d
+  else match m with
+       | Stop => QConflict
+       | Abort => QAborted (norm o)
+       | Resolve h => let d := resolved h b o t in
+                      if content_eqb d (norm o) then QNoChange else QResolved d
+       end.
+
+Definition cherry_pick2 (m : onconf) (head p c : content) : pres2 := merge_proc m p head c.
+Definition revert2 (m : onconf) (head p c : content) : pres2 := merge_proc m c head p.
+
+(* The session state while an operation is stopped: merge.AbortMerge resets
+   staged := HEAD, working := the pre-merge working root, and clears the state. *)
+Record opstate := { os_head : content; os_staged : content; os_working : content; os_pre : option content }.
+Definition clean_state (h : content) : opstate :=
+  {| os_head := h; os_staged := h; os_working := h; os_pre := None |}.
+(* cherryPick / revertCommit with artifacts: working := merge result (conflicting rows keep ours),
+   non-conflicting tables staged, StartCherryPick / StartRevert record the pre-merge working root *)
+Definition start_paused (b o t : content) : opstate :=
+  {| os_head := o; os_staged := merge3 b o t; os_working := resolved Ours b o t; os_pre := Some o |}.
+(* anything the user does while resolving: arbitrary new working / staged contents *)
+Inductive uedit := SetWorking (c : content) | SetStaged (c : content).
+Definition apply_uedit (s : opstate) (e : uedit) : opstate :=
+  match e with
+  | SetWorking c => {| os_head := os_head s; os_staged := os_staged s; os_working := c; os_pre := os_pre s |}
+  | SetStaged c => {| os_head := os_head s; os_staged := c; os_working := os_working s; os_pre := os_pre s |}
+  end.
+Definition abort_op (s : opstate) : option opstate :=
+  match os_pre s with
+  | Some pre => Some {| os_head := os_head s; os_staged := os_head s; os_working := pre; os_pre := None |}
+  | None => None                      (* "there is no merge to abort" *)
+  end.
+
+(* rebase with a conflict policy.  The rebased branch itself is not touched until the
+   plan has finished (the work happens on the temporary branch dolt_rebase_<b>), so
+   --abort (abortRebase: delete the temporary branch, switch back) gives back [orig]. *)
+Inductive rres2 := R2Ok (s : rstate) (pauses : N) | R2Conflict | R2Invalid | R2Aborted (orig : content).
+
+Definition commit_step (a : action) (s : rstate) (d : content) : rstate :=
+  if content_eqb d (norm (r_head s)) then s
+  else match a with
+       | Squash | Fixup => match r_new s with
+                           | _ :: older => {| r_onto := r_onto s; r_new := d :: older |}
+                           | [] => {| r_onto := r_onto s; r_new := [d] |}
+                           end
+       | _ => {| r_onto := r_onto s; r_new := d :: r_new s |}
+       end.
+
+Fixpoint run_steps2 (m : onconf) (orig : content) (s : rstate) (n : N) (p : plan) : rres2 :=
+  match p with
+  | [] => R2Ok s n
+  | (a, (pp, c)) :: p' =>
+    match a with
+    | Drop => run_steps2 m orig s n p'
+    | _ =>
+      if clean pp (r_head s) c
+      then run_steps2 m orig (commit_step a s (cherry_pick_data (r_head s) pp c)) n p'
+      else match m with
+           | Stop => R2Conflict
+           | Abort => R2Aborted orig
+           | Resolve h => run_steps2 m orig (commit_step a s (resolved h pp (r_head s) c)) (n + 1) p'
+           end
+    end
+  end.
+
+Definition run_plan2 (m : onconf) (orig onto : content) (p : plan) : rres2 :=
+  if valid_plan p then run_steps2 m orig {| r_onto := onto; r_new := [] |} 0 p else R2Invalid.
+
+(* ---------------- schema changes in the picked / reverted commit ---------------- *)
+(* Table 1 may gain or lose columns (ALTER TABLE t1 ADD COLUMN c int / DROP COLUMN c);
+   a schema is the list of its non-key column ids, rows are aligned with it.
+   merge.MergeRoots first merges the schemas (schema_merge.go), then merges rows in
+   the merged schema, a missing column reading as NULL
+   (merge_prolly_rows.go valueMerger: processBaseColumn / processColumn). *)
+Definition schema := list N.
+
+Fixpoint col_index (c : N) (s : schema) : option nat :=
+  match s with
+  | [] => None
+  | x :: s' => if x =? c then Some O else match col_index c s' with Some i => Some (S i) | None => None end
+  end.
+Definition cell_of (s : schema) (r : row) (c : N) : cell :=
+  match col_index c s with Some i => nth i r None | None => None end.
+Definition proj (from to : schema) (r : row) : row := map (cell_of from r) to.
+Definition reshape (from to : schema) (m : content) : content :=
+  map (fun kr => if fst (fst kr) =? 1 then (fst kr, proj from to (snd kr)) else kr) m.
+Definition has_col (c : N) (s : schema) : bool := existsb (N.eqb c) s.
+
+(* ours without the columns theirs dropped, then the columns theirs added *)
+Definition schema_merge (sb so st : schema) : schema :=
+  filter (fun c => negb (has_col c sb && negb (has_col c st))) so
+  ++ filter (fun c => negb (has_col c sb) && negb (has_col c so)) st.
+
+(* a column dropped by one side while the other side changed its cell, in a row all three have *)
+Definition drop_conflict_at (sb so st : schema) (b o t : content) (k : key) : bool :=
+  if fst k =? 1 then
+    match get k b, get k o, get k t with
+    | Some rb, Some ro, Some rt =>
+      existsb (fun c =>
+        (negb (has_col c st) && has_col c so && negb (cell_eqb (cell_of so ro c) (cell_of sb rb c)))
+        || (negb (has_col c so) && has_col c st && negb (cell_eqb (cell_of st rt c) (cell_of sb rb c)))) sb
+    | _, _, _ => false
+    end
+  else false.
+
+Definition smerge3 (sb so st : schema) (b o t : content) : content :=
+  let sm := schema_merge sb so st in merge3 (reshape sb sm b) (reshape so sm o) (reshape st sm t).
+Definition sclean (sb so st : schema) (b o t : content) : bool :=
+  let sm := schema_merge sb so st in
+  clean (reshape sb sm b) (reshape so sm o) (reshape st sm t)
+  && forallb (fun k => negb (drop_conflict_at sb so st b o t k)) (keys3 b o t).
+
+Fixpoint schema_eqb (a b : schema) : bool :=
+  match a, b with
+  | [], [] => true
+  | x :: a', y :: b' => (x =? y) && schema_eqb a' b'
+  | _, _ => false
+  end.
+
+(* merge procedure over (schema, content) pairs; with three equal schemas it is merge_proc *)
+Definition smerge_proc (m : onconf) (sb so st : schema) (b o t : content) : schema * pres2 :=
+  if schema_eqb sb so && schema_eqb sb st then (so, merge_proc m b o t)
+  else let sm := schema_merge sb so st in
+       if sclean sb so st b o t then
+         let d := smerge3 sb so st b o t in
+         if schema_eqb sm so && content_eqb d (norm o) then (so, QNoChange) else (sm, QOk d)
+       else match m with
+            | Abort => (so, QAborted (norm o))
+            | _ => (so, QConflict)          (* resolution of schema-change conflicts is not modelled *)
+            end.
